@@ -1,5 +1,5 @@
 import Fundraising.Generated.Code.Queries
-import Fundraising.Proofs.Tie.Export
+import Fundraising.Tables.GoStore
 import Fundraising.Model.Genesis
 /-
   Tie of the translated gRPC query handlers (keeper/query_*.go) to the model's query functions
